@@ -326,11 +326,10 @@ def semLine (_ : Unit) (line : String) : Unit × String :=
     let semSolvesOne : Bool := oneHyp && solutionOneB P ev &&
       st.demanded.all (fun n => !P.g.nodes.contains n || semVal n == ev n)
     -- hypotheses of the stuck-freedom theorem for pipelines with switches (Proofs/Live*.lean): `SwP`, no suspending
-    -- collaborator, no one-of child, the executable check `livePB` with the computed depth table
+    -- collaborator, the executable check `livePB` with the computed depth table
     let noYield : Bool := [Cb.nstart, Cb.ncomplete, Cb.save, Cb.pstart, Cb.pcomplete].all fun k =>
       (0 :: P.g.nodes).all fun n => P.cbYield k n == 0
-    let liveHyp : Bool := swHyp && noYield && P.g.nodes.all (fun n => !(P.g.attr n).isOneofChild) &&
-      livePB P (computeDepths P)
+    let liveHyp : Bool := swHyp && noYield && livePB P (computeDepths P)
     ((), (Json.mkObj [("outcome", Json.str oc), ("causes", jsonStrs causes), ("calls", jsonStrs calls),
                       ("one_hyp", Json.bool oneHyp), ("sem_solves_one", Json.bool semSolvesOne),
                       ("live_hyp", Json.bool liveHyp), ("sw_noyield", Json.bool (swHyp && noYield)),
